@@ -72,6 +72,7 @@ fn two_files_case(total: usize, l0: usize) {
 }
 
 // @prop C03
+// @tier off
 // @fn Extractor::extract_files, Metainfo::file_piece_ranges, Metainfo::piece_pos, BufReader/BufWriter/seek/read_to_end/read_exact over the in-memory fs
 // @bound piece length 4, total 8 bytes (2 pieces) of symbolic content, two files with every split (l0, 8 - l0), l0 in 0..=8: zero-length files, files inside one piece, files ending on and across piece boundaries
 // @outside pieces longer than 4 bytes, more than 2 files / 2 pieces (quick); OS errors; real disk
@@ -89,6 +90,7 @@ fn c03_extract_two_files_all_splits() {
 }
 
 // @prop C03
+// @tier off
 // @fn Extractor::extract_files (as above)
 // @bound piece length 4, total 7 bytes (short last piece), two files with every split (l0, 7 - l0)
 // @desc as c03_extract_two_files_all_splits with a last piece shorter than the piece length
